@@ -50,6 +50,11 @@ def make_generator(name, prog, acl_text, vendor):
                 cm = self.multiblock(*[tuple(r) for r in o["rows"]])
                 cm.__enter__()
                 frames.append(cm)
+            elif op == "menterif":
+                blocks = [tuple(r) for r in o["rows"]] + ([None] if o["none"] else [])
+                cm = self.multiblock_if(*blocks) if o["cond"] == "default" else self.multiblock_if(*blocks, condition=(o["cond"] == "true"))
+                cm.__enter__()
+                frames.append(cm)
             elif op == "leave":
                 if frames:
                     frames.pop().__exit__(None, None, None)
